@@ -46,7 +46,8 @@ TRUSTED = [
     "Gen.gcxsCtorChecks/gcxsShapeEltOk/cooCtorChecks/shapeEltOk translated from GCXS.__init__, COO.__init__, SparseArray.__init__ each run "
     "(tools/targets.d/C14.py) and compared with the real constructors on an enumerated grid of (data, indices, indptr, axes, shape) / (coords, data, shape)",
     "tie T2: hand model SparseV.Model.Npz (np.savez/np.load on one member, the order of the constructor checks on the load path incl. check_compressed_axes "
-    "and the TypeError of iterating compressed_axes=None, CPython copy protocol, numba integer conversion) compared with the implementation on representations by this run",
+    "and the TypeError of iterating compressed_axes=None, the list meaning of the expressions the generated checks take as parameters "
+    "(rowsOf, colsOf, ptrDecreases = np.any(indptr[1:] < indptr[:-1]), listMin/listMax = np.min/np.max), CPython copy protocol, numba integer conversion) compared with the implementation on representations by this run",
     "NumPy's/zlib's zip+npy container, CPython's pickle and copy modules, numba's (un)boxing of arrays and scalars: assumed; "
     "the container hypotheses of truncation_rejected / corruption_never_other are sampled (exhaustively per file), not proved",
 ]
@@ -587,7 +588,7 @@ def mutate_members(rng, members: dict, other: dict):
     m = dict(members)
     keys = list(m)
     kind = str(rng.choice(["drop", "object", "rename", "foreign", "shorten", "shape", "axes", "reorder", "fill", "none", "drop2",
-                           "indptr-len", "indptr-ends", "indices-len", "content"]))
+                           "indptr-len", "indptr-ends", "indices-len", "content", "row-order"]))
     k = str(rng.choice(keys))
     if kind == "drop":
         del m[k]
@@ -644,18 +645,30 @@ def mutate_members(rng, members: dict, other: dict):
     elif kind == "indices-len":
         i = np.asarray(m["indices"]).astype(np.int64)
         m["indices"] = i[:-1] if (len(i) and rng.random() < 0.5) else np.append(i, 0)
-    elif kind == "content":  # lengths and end pointers stay consistent: the constructor does not look at the contents
+    elif kind == "content":  # lengths and end pointers stay consistent; an out-of-range index / a decreasing indptr must be rejected
         i = np.asarray(m["indices"]).astype(np.int64).copy()
         p = np.asarray(m["indptr"]).astype(np.int64).copy()
         if len(i) and rng.random() < 0.5:
-            i[int(rng.integers(len(i)))] = int(rng.choice([-3, 10 ** 6]))
+            shp = [int(v) for v in np.asarray(m["shape"]).ravel()]
+            ca = [int(v) for v in np.asarray(m["compressed_axes"]).ravel()]
+            cols = int(np.prod([e for a, e in enumerate(shp) if a not in ca], dtype=np.int64)) if len(shp) >= 2 else (shp[0] if shp else 0)
+            i[int(rng.integers(len(i)))] = int(rng.choice([-1, -3, cols, cols + 1, 10 ** 6, max(cols - 1, 0)]))  # the last one stays in range
             m["indices"] = i
         elif len(p) > 2:
             j = int(rng.integers(1, len(p) - 1))
-            p[j] = int(rng.choice([-2, p[-1] + 5]))
+            p[j] = int(rng.choice([-2, p[-1] + 5, p[j - 1], p[-1]]))  # the last two may stay monotone
             m["indptr"] = p
         else:
             raise ValueError("nothing to change")
+    elif kind == "row-order":  # what is still trusted: order and multiplicity of the indices within a row
+        i = np.asarray(m["indices"]).astype(np.int64).copy()
+        if len(i) < 2:
+            raise ValueError("nothing to change")
+        if rng.random() < 0.5:
+            m["indices"] = i[::-1].copy()
+        else:
+            i[int(rng.integers(1, len(i)))] = i[0]
+            m["indices"] = i
     return kind, m
 
 
@@ -688,18 +701,18 @@ def leg_a_load(ctx, rng, pool, n):
         case = {"mutation": kind, "members": {k: {"dtype": np.asarray(v).dtype.str, "value": np.asarray(v).tolist() if np.asarray(v).dtype != object else None} for k, v in m.items()}}
         reqs.append(["npz_load", mj])
         metas.append((kind, case, real))
-    # the witness of C14.load_contents_unchecked (Model/Npz.lean: uncheckedWitness), replayed on the real load_npz
-    wit = ctx.driver.run([["npz_witnesses"]])[0]["ok"]["unchecked_contents"]
+    # the witness of C14.load_row_order_unchecked (Model/Npz.lean: rowOrderWitness), replayed on the real load_npz
+    wit = ctx.driver.run([["npz_witnesses"]])[0]["ok"]["row_order_unchecked"]
     wm = {k: (np.asarray(pl["v"], dtype=np.float64) if k == "data" else np.float64(pl["v"]) if k == "fill_value"
               else np.asarray(pl["v"], dtype=np.int64)) for k, pl in wit}
     tok = Tok()
     b = io.BytesIO()
     np.savez(b, **wm)
     reqs.append(["npz_load", members_json(wm, tok)])
-    metas.append(("witness-unchecked-contents", {"mutation": "witness-unchecked-contents", "members": {k: np.asarray(v).tolist() for k, v in wm.items()}},
+    metas.append(("witness-row-order", {"mutation": "witness-row-order", "members": {k: np.asarray(v).tolist() for k, v in wm.items()}},
                   outcome_json(lambda: load_bytes(b.getvalue()), lambda y: arr_json(y, tok))))
     if "ok" not in metas[-1][2]:
-        ctx.fail("A", "model:witness", metas[-1][1], f"the witness of load_contents_unchecked is rejected by the implementation: {metas[-1][2]}")
+        ctx.fail("A", "model:witness", metas[-1][1], f"the witness of load_row_order_unchecked is rejected by the implementation: {metas[-1][2]}")
     outs = ctx.driver.run(reqs)
     dist = collections.Counter()
     for (kind, case, real), out in zip(metas, outs):
@@ -717,7 +730,7 @@ def _indptr_candidates(rows, nind):
     good = [0] + [min(nind, k) for k in range(1, rows)] + [nind] if rows >= 1 else [nind]
     out = [good, good[:-1], good + [nind], [], [1] + good[1:], good[:-1] + [nind + 1]]
     if rows >= 2:
-        out.append([0] + [nind + 4] + good[2:])  # consistent ends, interior not monotone: accepted (contents are trusted)
+        out.append([0] + [nind + 4] + good[2:])  # consistent ends, interior decreasing: rejected since 748e5d3
     if rows == 0:
         out += [[0], [0, 0]]
     seen, res = set(), []
@@ -745,16 +758,25 @@ def leg_a_ctor(ctx, quick):
                 for nind in lens:
                     if abs(ndata - nind) > 1:
                         continue
+                    # index contents: all zero; the last admissible position; one past it; negative; repeated / out of order
+                    cols = (int(np.prod([e for a, e in enumerate(shape) if a not in ca], dtype=np.int64)) if valid
+                            else (shape[0] if nd == 1 else 2))
+                    fills = [[0] * nind]
+                    if nind:
+                        fills += [[0] * (nind - 1) + [cols - 1], [0] * (nind - 1) + [cols], [-1] + [0] * (nind - 1)]
+                    if nind >= 2:
+                        fills += [[max(cols - 1, 0)] + [0] * (nind - 1)]  # in range (if cols > 0) but decreasing within a row
                     for ptr in _indptr_candidates(rows if rows is None or 0 <= rows <= 6 else None, nind):
-                        data = np.arange(1, ndata + 1, dtype=np.float64)
-                        ind = np.zeros(nind, dtype=np.int64)
-                        case = {"shape": list(shape), "compressed_axes": None if ca is None else list(ca), "len_data": ndata,
-                                "len_indices": nind, "indptr": ptr}
-                        tok = Tok()
-                        real = outcome_json(lambda: sparse.GCXS((data, ind, np.asarray(ptr, dtype=np.int64)), shape=shape,
-                                                                compressed_axes=ca, fill_value=0.0), lambda y: arr_json(y, tok))
-                        reqs.append(["gcxs_ctor", tok.vec(data), ints(ind), ptr, None if ca is None else list(ca), list(shape), tok(np.float64(0.0))])
-                        metas.append(("gcxs", case, real))
+                        for fill_i in (fills if ptr == _indptr_candidates(rows if rows is None or 0 <= rows <= 6 else None, nind)[0] else fills[:1]):
+                            data = np.arange(1, ndata + 1, dtype=np.float64)
+                            ind = np.asarray(fill_i, dtype=np.int64)
+                            case = {"shape": list(shape), "compressed_axes": None if ca is None else list(ca), "len_data": ndata,
+                                    "indices": list(fill_i), "indptr": ptr}
+                            tok = Tok()
+                            real = outcome_json(lambda: sparse.GCXS((data, ind, np.asarray(ptr, dtype=np.int64)), shape=shape,
+                                                                    compressed_axes=ca, fill_value=0.0), lambda y: arr_json(y, tok))
+                            reqs.append(["gcxs_ctor", tok.vec(data), ints(ind), ptr, None if ca is None else list(ca), list(shape), tok(np.float64(0.0))])
+                            metas.append(("gcxs", case, real))
     c_shapes = [(), (0,), (3,), (2, 3), (0, 3), (-1,), (2, -1), (2, 3, 2)]
     for shape in c_shapes:
         for nrows in range(0, 4):
@@ -1231,8 +1253,8 @@ def run(ctx):
         "(extents 0-7), CSR/CSC, narrow coords dtypes, each COO also with caching on; per array: copy deep/shallow (+copy module), pickle (2 protocols), "
         "njit identity (COO), save_npz/load_npz compressed and not (file path and file object); leg A: members written / round trip / Excluded "
         "predicate, load_npz on mutated member sets (drop, object, rename, foreign, shorten, shape, axes, reorder, fill, indptr length / end entries, "
-        "indices length, index contents), the GCXS and COO constructors on an enumerated grid of (data, indices, indptr, axes, shape) / (coords, data, shape) "
-        "incl. negative extents, wrong lengths, wrong end pointers, non-monotone interior, pickle state, numba boxing "
+        "indices length, index contents out of range / indptr decreasing, order and repetition within a row), the GCXS and COO constructors on an enumerated grid of (data, indices, indptr, axes, shape) / (coords, data, shape) "
+        "incl. negative extents, wrong lengths, wrong end pointers, decreasing interior, indices at / beyond / below the admissible range, pickle state, numba boxing "
         "around dtype limits; damage: EVERY strict prefix and every byte (quick: one replacement value, thorough: six) of the selected files, "
         "all local+npy header bytes of files with members > 4 KiB, the embedded-archive prefix; non-trivial = everything but empty pools; distinct by content hash")
 
